@@ -4,6 +4,7 @@ import ElvisVerif.Lemmas.TcbPath
 import ElvisVerif.Lemmas.TcbIrs
 import ElvisVerif.Lemmas.TcbSeq
 import ElvisVerif.Lemmas.TcbClose
+import ElvisVerif.Lemmas.TcpSysInv
 import ElvisVerif.Props.C17
 /-!
 # C03 — TCP connections open, synchronise and close as RFC 9293 prescribes
@@ -476,21 +477,14 @@ theorem c03_irs_stable_run (s : Tcb) (hw : Wf s) (hi : HeapIdle s) (h : s.state 
 
 /-! ## synchronisation: RCV.NXT never passes what the peer has sent -/
 
-/-- **The receive half of `c03_synchronised`** (full strength, single endpoint, every state,
-    every segment).  Let `base` be the peer's ISS and `base + N` its `SND.NXT` (`N < 2^31`: fewer
-    than 2^31 sequence numbers used, the usual segment-lifetime assumption).  If the arriving
-    segment and every segment waiting in the reorder queue occupy sequence numbers below
-    `base + N` only (a SYN sits at `base`) — which is what "the peer has sent" means —, then after
-    `segment_arrives` `RCV.NXT` is at most `N` ahead of `base`, i.e. `RCV.NXT =< SND.NXT_peer`
-    circularly, it has not moved backwards, SYN-SENT has not been re-entered, and what is still
-    parked is still below.  No hypothesis on flags, acknowledgment numbers, windows, order,
-    duplication or loss.
-
-    What is NOT proved here (and therefore `_partial`): that every segment a peer's TCB emits
-    lies below its `SND.NXT` (the send half) and `SND.UNA_peer =< RCV.NXT` (the acknowledgment
-    half), and the equality at quiescence; these three are evaluated by the native oracle on the
-    real code after every op (`synchronised …` idents in `harness/hcore/src/props/c03.rs`). -/
-theorem c03_synchronised_partial (s : Tcb) (segment : Segment) (s' : Tcb)
+/-- **The receive half, single endpoint** (every state, every segment).  Let `base` be the
+    peer's ISS and `base + N` its `SND.NXT` (`N < 2^31`).  If the arriving segment and every
+    segment waiting in the reorder queue occupy sequence numbers below `base + N` only (a SYN
+    sits at `base`) — which is what "the peer has sent" means —, then after `segment_arrives`
+    `RCV.NXT` is at most `N` ahead of `base`, it has not moved backwards, SYN-SENT has not been
+    re-entered, and what is still parked is still below.  No hypothesis on flags, acknowledgment
+    numbers, windows, order, duplication or loss. -/
+theorem c03_synchronised_receive (s : Tcb) (segment : Segment) (s' : Tcb)
     (e : s.segmentArrives segment = .ok (s', .Ok))
     (base : Seq) (N : Nat) (hN : N < 2147483648)
     (hb : s.state ≠ .SynSent → off base s.rcv.nxt ≤ N)
@@ -509,6 +503,78 @@ example : ∃ s s' : Tcb, ∃ seg : Segment, s.segmentArrives seg = .ok (s', .Ok
   refine ⟨{ localPort := 0xcafe#16, remotePort := 0xdead#16, mtu := 1500#16, initiation := .Open,
             state := .SynSent, snd := { iss := 1000#32, una := 1000#32, nxt := 1001#32 }, rcv := {} },
           _, forge .A 18 5000 1001 65535 [], rfl, ⟨fun _ => rfl, fun _ => by decide⟩, by decide, by decide⟩
+
+/-- **Synchronisation in the closed two-endpoint system** (`Model/TcpSys.lean`).  Start with an
+    active open by A and either a passive open (listen binding) or an active open by B — any
+    ISNs, any MTUs.  Then run ANY finite sequence of writes, reads, timer ticks, `segments()`
+    calls, closes and deliveries of ANY element of the history of everything ever emitted to the
+    side it is addressed to (`Op.Clean`: loss = never delivering, duplication = delivering
+    again, reordering / delay = any order, at any later time; LISTEN and CLOSED replies included),
+    such that before every step both endpoints have used and queued fewer than 2^31 sequence
+    numbers (`RoomOk`, the segment-lifetime assumption H31 of C01).  Whenever both TCBs exist and
+    the receiving one has left SYN-SENT — in particular whenever both are synchronised —:
+
+      `RCV.NXT_peer =< SND.NXT_x` for `x` = A and `x` = B,
+
+    in offsets from `ISS_x` (both below 2^31) and therefore also in the code's circular order
+    (`mod_gt(RCV.NXT_peer, SND.NXT_x)` is false): no endpoint ever expects a sequence number the
+    other has not sent.  Proved by the invariant `Inv` of `Lemmas/TcpSysInv.lean` over `Sys.step`
+    (send half `Lemmas/TcbSnd.lean`, receive half `Lemmas/TcbSeq.lean`).
+
+    `_partial`: the other two clauses of the synchronisation property — `SND.UNA_x =< RCV.NXT_peer`
+    and `RCV.NXT_peer = SND.NXT_x` once everything emitted has been delivered — are not proved;
+    they are evaluated by the native oracle on the real code after every op and at quiescence
+    (`synchronised …` idents).  `abort`, `drop`, re-`open` and forged segments are outside
+    `Op.Clean` (a second incarnation reuses old sequence space; see `c03_old_duplicate_syn` for
+    what an old SYN can and cannot do). -/
+theorem c03_synchronised_partial (ia ib : Seq) (ma mb : U16) (simultaneous : Bool) (sys0 sys : Sys)
+    (rs : List Res)
+    (h0 : Sys.run {} [.open .A ia ma, if simultaneous then .open .B ib mb else .listen .B ib mb] = .ok (sys0, rs))
+    (hrun : CleanRun sys0 sys) (hroom : RoomOk sys) (x : SideId) (t u : Tcb)
+    (ht : (sys.side x).tcb = some t) (hu : (sys.side x.peer).tcb = some u) (hs : u.state ≠ .SynSent) :
+    off t.snd.iss u.rcv.nxt ≤ off t.snd.iss t.snd.nxt ∧ off t.snd.iss t.snd.nxt < 2147483648 ∧
+      ModCmp.modGt u.rcv.nxt t.snd.nxt = false := by
+  have hi0 : Inv sys0 := by
+    cases simultaneous with
+    | true => exact inv_init_simultaneous ia ib ma mb sys0 rs h0
+    | false => exact inv_init_active_passive ia ib ma mb sys0 rs h0
+  exact inv_rcv_le_snd sys (inv_run hi0 hrun) hroom x t u ht hu hs
+
+/-- a concrete clean run: handshake, three bytes from A to B, A's close, everything delivered -/
+def exampleRun : Bool :=
+  match Sys.run {} [.open .A 1000 1500, .listen .B 5000 1500] with
+  | .ok (sys0, _) =>
+    match cleanRunB sys0 [.emit .A, .deliver .B 0, .emit .B, .deliver .A 1, .write .A [1, 2, 3],
+        .close .A, .emit .A, .deliver .B 2, .deliver .B 3, .deliver .B 4] with
+    | some sys =>
+      roomB sys && (match sys.a.tcb, sys.b.tcb with
+        | some t, some u => u.state == .CloseWait && u.rcv.nxt == t.snd.nxt && t.snd.nxt == 1005#32
+        | _, _ => false)
+    | none => false
+  | .error _ => false
+
+/-- the statement is not vacuous: the run above is clean with room at every step (checked by the
+    executable `cleanRunB`, sound by `cleanRunB_sound`); B ends in CLOSE-WAIT with
+    `RCV.NXT_B = SND.NXT_A = 1005` (SYN + 3 bytes + FIN) -/
+example : ∃ sys0 sys : Sys, ∃ rs : List Res,
+    Sys.run {} [.open .A 1000 1500, .listen .B 5000 1500] = .ok (sys0, rs) ∧ CleanRun sys0 sys ∧ RoomOk sys ∧
+    ∃ t u, sys.a.tcb = some t ∧ sys.b.tcb = some u ∧ u.state = .CloseWait ∧ u.rcv.nxt = t.snd.nxt ∧
+      t.snd.nxt = 1005#32 := by
+  have key : exampleRun = true := by decide
+  unfold exampleRun at key
+  split at key
+  · rename_i sys0 rs e0
+    split at key
+    · rename_i sys e1
+      simp only [Bool.and_eq_true] at key
+      obtain ⟨hr, hk⟩ := key
+      split at hk
+      · rename_i t u ht hu
+        simp only [Bool.and_eq_true, beq_iff_eq] at hk
+        exact ⟨sys0, sys, rs, e0, cleanRunB_sound _ _ _ e1, roomB_sound _ hr, t, u, ht, hu, hk.1.1, hk.1.2, hk.2⟩
+      · simp at hk
+    · simp at key
+  · simp at key
 
 /-! ## the FIN follows the data; release -/
 
